@@ -80,6 +80,20 @@ Theorem C10_admitted_every_three : forall beh e1 e2 e3 es rs st st' rs' ts p,
   exists t1 t2 t3 rest, ts = t1 :: t2 :: t3 :: rest /\ 1 <= admitted_count [t1; t2; t3] p.
 Proof. exact admitted_every_three. Qed.
 
+(* the item at position k of a level's job list is handed to its dispatch function once to_process * (admitted turns) > k,
+   in particular after 3 * (k / to_process + 1) consecutive full turns *)
+Theorem C10_item_served_within : forall beh envs rs st st' rs' ts p k it,
+  workload beh -> nosig st -> turns beh envs rs st = (st', rs', ts) -> (forall t, In t ts -> ti_returned t = false) ->
+  nth_error (jq st p) k = Some it -> Z.of_nat k < LOOP_TO_PROCESS * admitted_count ts p ->
+  exists l pre, jq st p ++ l = pre ++ jq st' p /\ zlen pre = total_disp ts p /\ nth_error pre k = Some it.
+Proof. exact item_served_within. Qed.
+Theorem C10_item_served_bound : forall beh envs rs st st' rs' ts p k it,
+  workload beh -> nosig st -> length envs = (3 * (Z.to_nat (Z.of_nat k / LOOP_TO_PROCESS) + 1))%nat ->
+  turns beh envs rs st = (st', rs', ts) -> (forall t, In t ts -> ti_returned t = false) ->
+  nth_error (jq st p) k = Some it ->
+  exists l pre, jq st p ++ l = pre ++ jq st' p /\ zlen pre = total_disp ts p /\ nth_error pre k = Some it.
+Proof. exact item_served_bound. Qed.
+
 (* no sleeping on queued work (every behaviour table): in every state reachable by a history the three todo counters add up to
    the number of items on the three job lists ([dd] = their difference); a full turn hands the next one a remaining_todo that
    is at least the number of items still queued; hence the next epoll_wait is called with timeout 0 while anything is queued *)
@@ -126,6 +140,8 @@ Print Assumptions C10_no_starvation_all_behaviours.
 Print Assumptions C10_no_starvation.
 Print Assumptions C10_bounded_wait.
 Print Assumptions C10_admitted_every_three.
+Print Assumptions C10_item_served_within.
+Print Assumptions C10_item_served_bound.
 Print Assumptions C10_todo_counts_queued.
 Print Assumptions C10_remaining_covers_queue.
 Print Assumptions C10_no_sleep_on_queued_work.
